@@ -13,20 +13,28 @@ THEOREMS = [
     ("EG.props.C19", "C19_checker_complete"),
     ("EG.props.C19", "C19_pulled_meaning"),
     ("EG.props.C19", "C19_checker_sound"),
+    ("EG.props.C19", "C19_all_endpoints_survive_minority_stop"),
+    ("EG.props.C19", "C19_refuted_single_endpoint"),
 ]
 HARNESSES = [
     dict(name="sync", pkg="pkg/cluster", files=["harness/cluster/zz_verif_c19_test.go"],
-         run="TestVerifC19", groups=["sync"], timeout=1500),
+         run="TestVerifC19", groups=["sync", "endpoints"], timeout=1500),
+    # three members on one host; the server of each member is stopped in turn (runs beside the first harness)
+    dict(name="multi", pkg="pkg/cluster",
+         files=["harness/cluster/zz_verif_c19_test.go", "harness/cluster/zz_verif_c19_multi_test.go"],
+         run="TestVerifC19Multi", groups=["multi"], timeout=1500),
 ]
-GROUPS = {"sync": "check_sync"}
-EXPLAIN = {"sync": "explain_sync"}
+GROUPS = {"sync": "check_sync", "multi": "check_multi", "endpoints": "check_endpoints"}
+EXPLAIN = {"sync": "explain_sync", "multi": "explain_multi", "endpoints": "explain_endpoints"}
 CASES = {"quick": 240, "thorough": 2400}
 RULE = ("cases: one write history (put/delete/txn/delete-prefix; bursts, same-value puts, delete-then-recreate, keys under/"
         "outside/near the watched key or prefix; sleeps; muted watch, injected watch cancellation, etcd server stop/start) "
         "x 2-4 subscriptions (Sync/SyncRaw/SyncPrefix/SyncRawPrefix, subscribed at any point, fast/slow/late consumer); "
         "non-trivial = at least one message delivered; classes add: a store change was coalesced (+1), consecutive equal store "
         "contents (+2), multi-key content (+4), non-empty content at subscription (+8), fault injected (+16), a content "
-        "came back after being replaced (+32); distinct = distinct (group, input) hashes among non-trivial cases")
+        "came back after being replaced (+32), 3-member same-host cluster with the server of one member stopped (+64); "
+        "group endpoints: etcd client endpoint list built by getClient vs members of the initial cluster (1-7 members, same "
+        "host / distinct hosts); distinct = distinct (group, input) hashes among non-trivial cases")
 TRUSTED_BASE = [
     "model coq/model/Syncer.v is hand-written; tied to pkg/cluster/syncer.go + op.go by the per-run correspondence (sampled)",
     "the store-state sequence is what the harness reads back from the embedded etcd (GetRaw/GetRawPrefix, linearizable reads) "
@@ -37,6 +45,7 @@ TRUSTED_BASE = [
     "own watch client; a genuine etcd-side cancellation is not forced",
 ]
 ASSUMPTIONS = [
+    "a multi-member store is available iff a quorum of its members is up (modelled etcd semantics), not tied to one endpoint",
     "fairness of the ticker: after the last write some pull eventually succeeds (hypothesis of C19_converges)",
     "a pull returns the store content of one instant (single etcd range request) and contents are maps (unique keys)",
     "the consumer's implicit initial snapshot is the empty content (DESIGN.md C19 reading)",
@@ -79,11 +88,32 @@ def _op(o):
 
 
 _KIND = {"sync": 0, "raw": 1, "prefix": 2, "rawprefix": 3}
-_FAULTS = ("mute", "unmute", "cancel", "restart")
+_FAULTS = ("mute", "unmute", "cancel", "restart", "stop", "start")
+
+
+def _down_max(ops):
+    down, best = set(), 0
+    for x in ops:
+        if x["k"] == "stop":
+            down.add(x.get("m", 0))
+        elif x["k"] == "start":
+            down.discard(x.get("m", 0))
+        best = max(best, len(down))
+    return best
 
 
 def encode(c):
     i, o = c["in"], c["obs"]
+    if c["grp"] == "endpoints":
+        return Rec(e_members=Nat(i["members"]), e_same_host=B(i.get("same_host")),
+                   e_endpoints=Nat(min(4000, o.get("endpoints", 0))), e_covers=B(o.get("covers") and not o.get("bad")))
+    if c["grp"] == "multi":
+        return Rec(m_case=_encode_sync(i, o), m_members=Nat(i.get("members", 1)),
+                   m_down=Nat(_down_max(i.get("ops") or [])), m_endpoints=Nat(min(4000, o.get("endpoints", 0))))
+    return _encode_sync(i, o)
+
+
+def _encode_sync(i, o):
     ops = i.get("ops") or []
     subs = i.get("subs") or []
     n = len(ops)
@@ -103,6 +133,8 @@ def distribution(cases):
     for c in cases:
         i, o = c["in"], c["obs"]
         d["groups"][c["grp"]] = d["groups"].get(c["grp"], 0) + 1
+        if c["grp"] == "endpoints":
+            continue
         ops = i.get("ops") or []
         b = "%d-%d" % (len(ops) // 10 * 10, len(ops) // 10 * 10 + 9)
         d["ops_hist"][b] = d["ops_hist"].get(b, 0) + 1
@@ -124,7 +156,12 @@ def distribution(cases):
 
 def extra_evidence(tier, cases, results):
     restarts = sum(1 for c in cases for x in (c["in"].get("ops") or []) if x["k"] == "restart")
-    return dict(etcd_restart_exercised=restarts > 0, etcd_restarts=restarts,
+    stops = sum(1 for c in cases if c["grp"] == "multi" for x in (c["in"].get("ops") or []) if x["k"] == "stop")
+    return dict(multi_member_server_stops=stops,
+                multi_member_note=("3-member same-host static cluster (mockStaticCluster): syncer on member 0, server of each "
+                                   "member stopped in turn while an independent client keeps writing; convergence required while "
+                                   "the server is down%s" % (" and across its restart" if tier == "thorough" else "")),
+                etcd_restart_exercised=restarts > 0, etcd_restarts=restarts,
                 etcd_restart_note=("NOT exercised in this run" if restarts == 0 else
                                    "embedded etcd server stopped (CloseServer) and restarted (StartServer) from its data dir in "
                                    "the middle of %d histories; it restarts cleanly offline" % restarts))
@@ -135,6 +172,8 @@ def signature(case, result):
 
 
 def shrink_candidates(inp, grp):
+    if grp != "sync":   # multi-member cases are already minimal scenarios; each re-run costs a cluster start
+        return
     ops = inp.get("ops") or []
     subs = inp.get("subs") or []
     # fewer subscriptions first (each is independent), then fewer ops
